@@ -840,9 +840,17 @@ func (fx *FnCtx) havocLoop(li *loopInfo, st *State, pc *Term) {
 		}
 		st.Locals[r] = v
 	}
+	for _, g := range fx.ghostAssignedInLoop(li) {
+		cur := st.Ghost[g]
+		nv := Value{T: cur.T, L: make([]*Term, len(cur.L))}
+		for i, l := range cur.L {
+			nv.L[i] = Fresh(lname+"_ghost_"+g, l.Sort)
+		}
+		st.Ghost[g] = nv
+	}
 	if ms.alloc {
 		n := Fresh(lname+"_nalloc", tc.IdxSort())
-		fx.assume(Implies(pc, tc.IdxLe(st.NAlloc, n)))
+		fx.assume(Implies(pc, And(tc.IdxLe(st.NAlloc, n), tc.IdxLe(n, tc.IdxNum(1<<61)))))
 		st.NAlloc = n
 	}
 	for name, hi := range ms.heaps {
